@@ -26,6 +26,9 @@ CHECKS = {
  "C01": dict(level="model_checking", engine="seqx", technique="explicit-state breadth-first search over publish/join/leave/re-publish event sequences of the real server (replay-from-root on a fresh logic.ServerManager per transition, fingerprint dedup), per-consumer contiguity monitor on bytes decoded by reference codecs; plus an exhaustive payload-length x timestamp shape sweep",
    text="For 8 (quick) / 12 (thorough) configurations of GOP cache size, per-GOP frame cap, merge-write size and FLV recording, every event sequence up to depth 5 (quick) / 8 (thorough, time-capped) over {publish one of 8 message kinds, join RTMP/HTTP-FLV/WS-FLV, leave oldest/newest, publisher leaves/arrives} is executed on a real ServerManager with real RTMP and HTTP-FLV sessions over in-memory connections; after every event each consumer's bytes are decoded by the reference RTMP/FLV/WebSocket readers and checked: known messages only, byte-identical payload (modulo @setDataFrame), identical timestamp, no duplicate, prologue before live data, live run contiguous per publisher incarnation and reaching the newest message up to the merge-write size; the FLV record file likewise. A shape sweep covers payload lengths on both sides of 128/4096 multiples x timestamps around 0xFFFFFF, 2^31, 2^32 and non-monotonic pairs.",
    note="Every explored trace is an implementation trace (no separate model). Subscriber write queues forced to 0 (the statement excludes back-pressure). Relay-push targets are covered by C17. Bounds: <=3 simultaneous consumers, 2 publisher incarnations, depth as stated; data independence argument for payload bytes beyond the classification prefix.", design="C01"),
+ "C02": dict(level="model_checking", engine="seqx", technique="explicit-state breadth-first search over publish/join/leave/re-publish event sequences of the real server with a well-formed publisher (replay-from-root, fingerprint dedup); oracle = reference prologue/GOP model (plain lists) evaluated on bytes decoded by reference codecs",
+   text="For 6 (quick) / 9 (thorough) GOP-cache configurations (gop_num 0..3, per-GOP cap 0..2, per protocol), every event sequence up to depth 6 / 9 over {publish metadata, two different video sequence headers, key, inter, AAC header, AAC frame; join RTMP / HTTP-FLV / HTTP-TS; leave; publisher leaves / arrives} is run on a real ServerManager; after every event each consumer's decoded stream is checked against the reference model: latest metadata and sequence headers before the first frame, every frame preceded by the header in force when it was published, first video frame is a key frame, replayed frames equal the last min(n, gop_num) reference GOPs (cap rule), replay contiguous with live data, nothing of a previous publisher once another is current, and a joiner of a stream without video gets the next message. TS consumers: PAT then PMT first, first video PES at a random-access point.",
+   note="Every explored trace is an implementation trace. Publisher constrained to well-formed streams (frames after their header, inter after key). RTSP consumers' SDP-first rule is not covered here. Bounds: <=2 simultaneous consumers, 2 incarnations, depth as stated.", design="C02"),
 }
 NOT_YET = "check not built yet in this session (work in progress; see DESIGN.md section for the planned model-checking design)"
 
